@@ -145,6 +145,17 @@ def context_for(prop, history):
             raise RuntimeError(f"resolver failed: {error!r}")
     if prop == "C08":
         return {"worker_table": worker_table(suite_path_of(scenario))}
+    if prop == "C20":
+        sp = suite_path_of(scenario)
+        table = worker_table(sp)
+        variants = vm_variants(sp)
+        comp = {}
+        for w in scenario["nets"].split():
+            comp[w] = {}
+            for vm in scenario["selected_vms"]:
+                test = {"only": {}, "no": {}}
+                comp[w][vm] = bool(compatible_variants(test, vm, table[w], scenario["vm_strs"], variants))
+        return {"compatible": comp}
     if prop == "C15":
         sp = suite_path_of(scenario)
         vms_params = scenario.get("vms_params", {})
